@@ -628,6 +628,11 @@ def bounded_eq(reg, tier, seed):
             for step in range(rng.randrange(3, 14)):
                 op = rng.choice(["poll", "poll", "poll", "inject", "repoll", "poll_502", "poll_region", "reannounce"])
                 evals += 1
+                if op == "reannounce" and rng.random() < 0.4:
+                    # a later Seed response grants EventQueueGet again, under another URL: the URL the viewer is polling stays what it was
+                    region.update_caps({"EventQueueGet": f"https://sim.example/cap/eq-{run}-{step}"})
+                    trace.append("regrant EventQueueGet under a new URL")
+                    continue
                 if op == "reannounce":
                     # the region is announced again (by an event on some other region's queue) with the same or a new seed capability
                     # while the viewer keeps polling the queue it has: nothing queued or cached for that queue is lost by that
